@@ -98,6 +98,16 @@ pub fn sigma_full(l: L) -> Vec<String> {
             out.push(w.to_string());
         }
     }
+    // hyphenated groups made of zero words and digits
+    let c = cls(l);
+    for w in [format!("{}-{}", c.zero, c.zero), format!("{}-{}", c.zero, c.unit), format!("{}-{}", c.unit, c.zero)] {
+        if !out.contains(&w) {
+            out.push(w);
+        }
+    }
+    if l == L::En {
+        out.push("o-o".to_string());
+    }
     // words mixing letters with other characters, and punctuation tokens
     for p in ["qw'fp", "e-xyzzy", "b2", "xyzzy,", ",", ".", ";", "-", ". "] {
         out.push(p.to_string());
